@@ -13,6 +13,7 @@ SPEC = os.path.join(vf.VERIF, "spec", "chain")
 BIN = "vh-chain-gov"
 REPLAY_CMD = [BIN, "replay-gov", "-in", "{in}"]
 KNOWN_C37 = "F-C37-height-zero"
+KNOWN_C37_SIM = "F-C37-simulate-sets-schedule"
 
 C37_FIELDS = ("upg", "featMem", "probe")
 
@@ -43,6 +44,9 @@ def tags_of(op, stage, kind, fields):
 def _prepare(c):
     vf.build_harness([BIN])
     c.assume("the harness plays Tendermint deterministically; transactions of this module are never resubmitted (the tx indexer is not fed)")
+    c.assume("off-chain noise (CheckTx and the app/simulate query of forged transactions: rightful owner's address and public key, junk "
+             "signature, control handed to an intruder; and of correctly signed ones) is interleaved with the recorded steps and is NOT an "
+             "event: the next recorded step is judged from the last recorded post-state, so any persistent or in-memory effect is a rejected step")
     c.assume("parameter values are compared as raw stored bytes (values longer than 40 bytes by digest); a 'valid' value is the "
              "codec's own encoding of a well-typed value for that key, an 'invalid' one is not JSON")
     c.assume("a process restart is emulated in-process: the codec's global upgrade schedule is reset to its initial values and the "
@@ -179,13 +183,14 @@ def c36(c):
         if c.violations:
             return c.finish(rule="stopped after the first failing stage")
     paths, n = [], 0
-    for mode in ("params", "dao", "upgrade"):
+    for mode in ("params", "dao", "upgrade", "intruder"):
         tr, k, cmd = _record(c, mode, mode)
         paths.append(tr)
         n += k
     tr, k, cmd = _record(c, "random", "random", 24 if thorough else 6, 40 if thorough else 25)
     paths.append(tr)
-    _trace_stage(c, "C36", _concat(c, "all", paths), "scripted (every key x sender x validity; DAO; upgrades) + random governance scenarios", cmd, n + k)
+    _trace_stage(c, "C36", _concat(c, "all", paths), "scripted (every key x sender x validity; DAO; upgrades; intruder after off-chain forgeries) "
+                 "+ random governance scenarios with off-chain noise", cmd, n + k)
     return c.finish(
         rule="behaviours = every transition of MCChainGov (params: every ACL key x {owner, owner of another key, unrelated} x {well-typed, "
              "unparsable}; dao: transfer/burn x sender x amount {0,1,balance,balance+1} x recipient, DAO-owner / ACL changes and requests "
@@ -217,22 +222,28 @@ def c37(c):
                         {"kind": "behaviour", "harness_cmd": REPLAY_CMD, "behaviour": conf[0].get("behaviour"), "mismatch": conf[0]})
             return c.finish(rule="stopped after the first failing stage")
     paths, n = [], 0
-    tr, k, cmd = _record(c, "upgrade", "upgrade")
-    paths.append(tr)
-    n += k
+    for mode in ("upgrade", "intruder"):
+        tr, k, cmd = _record(c, mode, mode)
+        paths.append(tr)
+        n += k
     tr, k, cmd = _record(c, "random", "random", 24 if thorough else 6, 40 if thorough else 25)
     paths.append(tr)
     n += k
     tr = _concat(c, "all", paths)
-    res = _trace_stage(c, "C37", tr, "scripted upgrade / restart + random governance scenarios", cmd, n)
+    res = _trace_stage(c, "C37", tr, "scripted upgrade / restart / intruder + random governance scenarios with off-chain noise", cmd, n)
     if res.ok:
-        strict = vf.run_tlc(SPEC, "TraceChainGov", "TraceChainGov_C37strict.cfg", c.scratch, workers=1, env={"TRACE_FILE": tr},
-                            tag="TraceChainGov-strict", timeout=3000)
-        if not strict.ok:
-            if entry:
-                c.known_finding("%s: %s (recorded restart)" % (KNOWN_C37, entry[0]["what"]))
+        # the two named deviations are excluded from the main invariant by their tags; the strict forms show them
+        for cfg, kid, what in (("TraceChainGov_C37strict.cfg", KNOWN_C37, "recorded restart"),
+                               ("TraceChainGov_C37sim.cfg", KNOWN_C37_SIM, "recorded app/simulate of a forged upgrade")):
+            strict = vf.run_tlc(SPEC, "TraceChainGov", cfg, c.scratch, workers=1, env={"TRACE_FILE": tr},
+                                tag="TraceChainGov-" + os.path.splitext(cfg)[0], timeout=3000)
+            if strict.ok:
+                continue
+            ent = [k_ for k_ in c.known if k_.get("id") == kid]
+            if ent:
+                c.known_finding("%s: %s (%s)" % (kid, ent[0]["what"], what))
             else:
-                vf.trace_violation_from_tlc(c, strict, tr, "C37 strict (no feature loss on restart)", cmd)
+                vf.trace_violation_from_tlc(c, strict, tr, "C37 strict (%s)" % what, cmd)
     return c.finish(
         rule="behaviours = every transition of MCChainGov/upgrade: sequences of up to %d upgrade messages (new version, feature-only, "
              "duplicate inside a message, re-schedule, unsorted pair, height-1 message, foreign sender) with a process restart possible "
